@@ -267,15 +267,17 @@ pub fn records(rng: &mut Rng, cfg: &Cfg) -> Vec<Rec> {
             chain_seq.push(chain_seq[0]); // a chain id that comes back after another chain
         }
         let use_blank = cfg.blank_chains && r.chance(2, 5);
-        let mut resnum: isize = if cfg.wraps && r.chance(1, 4) { 9_995 + r.below(4) as isize } else { r.range(-3, 40) as isize };
+        let near_wrap = cfg.wraps && r.chance(1, 2);
+        let mut resnum: isize = if near_wrap { 9_996 + r.below(4) as isize } else { r.range(-3, 40) as isize };
         for (ci, chain) in chain_seq.iter().enumerate() {
-            let n_res = 1 + r.below(3);
+            // near the end of the column a chain is long enough to wrap, and records go on after its TER
+            let n_res = if near_wrap { 2 + r.below(3) } else { 1 + r.below(3) };
             let order_mode = r.below(4);
             for _ in 0..n_res {
-                let ins = if r.chance(1, 6) { Some(*r.pick(&['A', 'b', 'Z'])) } else { None };
+                let ins = if r.chance(1, 6) { Some(*r.pick(&['A', 'b', 'Z', 'a', 'B'])) } else { None };
                 // the name follows from the residue's key: a key that comes back (numbers are not ascending any more) names the same residue
                 let _ = r.pick(&resnames);
-                let resname = resnames[((resnum + 50) as usize * 7 + ins.map_or(0, |c| c as usize)) % resnames.len()];
+                let resname = resnames[((resnum + 50) as usize * 7 + ins.map_or(0, |c| c.to_ascii_uppercase() as usize)) % resnames.len()];
                 let alt_mode = r.below(8); // 0,1,2: none; 3,5,6,7: partial (some atoms blank; one, two or three labels; blank first or in the middle); 4: full
                 let n_atoms = 1 + r.below(4);
                 let alts: Vec<Option<char>> = match alt_mode {
@@ -289,7 +291,7 @@ pub fn records(rng: &mut Rng, cfg: &Cfg) -> Vec<Rec> {
                 for alt in alts {
                     for _ in 0..n_atoms {
                         let name = *r.pick(&names);
-                        let element = if r.chance(1, 2) { "" } else { *r.pick(&["C", "N", "O", "S", "ZN", "H", "c"]) };
+                        let element = if r.chance(1, 2) { "" } else { *r.pick(&["C", "N", "O", "S", "ZN", "H", "c", "h", "HG", "HO"]) };
                         let a = AtomRec {
                             hetero: r.chance(1, 5),
                             serial,
@@ -336,7 +338,7 @@ pub fn records(rng: &mut Rng, cfg: &Cfg) -> Vec<Rec> {
                     }
                 };
             }
-            if use_blank || r.chance(1, 3) {
+            if use_blank || r.chance(1, 3) || (near_wrap && r.chance(1, 2)) {
                 out.push(Rec::Ter);
             }
             let _ = ci;
